@@ -359,4 +359,91 @@ example : runIR irTable w0 (.union (.not (.truth (.var 0))) (.truth (.var 0))) [
   simp only [List.mem_cons, List.mem_nil_iff, or_false] at hp
   rcases hp with rfl | rfl <;> rfl
 
+/-! ### `HasType` (the instantiated-`Variable` branch of `Variable._evaluate__`) and `truth` -/
+
+def mVar : Method :=
+  { cls := "Variable", name := "_evaluate__", kind := "def", params := ["sources", "parent"],
+      body := (.seq (.assign (.att .self "_eval_parent_") (.nm "parent")) (.seq (.assign (.nm "sources") (.bin "or" (.nm "sources") (.dict .nil))) (.ifte (.bin "in" (.att .self "_id_") (.nm "sources")) (.seq (.ifte (.bin "or" (.call (.nm "isinstance") (.cons (.att .self "_parent_") (.cons (.nm "LogicalBinaryOperator") .nil))) (.bin "is" .self (.att .self "_conditions_root_"))) (.assign (.att .self "_is_false_") (.un "not" (.call (.nm "bool") (.cons (.idx (.nm "sources") (.att .self "_id_")) .nil)))) .pass) (.seq (.assign (.nm "v0") (.bin "or" (.call (.nm "isinstance") (.cons (.att .self "_parent_") (.cons (.nm "LogicalOperator") .nil))) (.bin "or" (.bin "is" .self (.att .self "_conditions_root_")) (.att .self "_is_condition_of_nested_query_")))) (.yld (.call (.nm "OperationResult") (.cons (.nm "sources") (.cons (.bin "and" (.nm "v0") (.un "not" (.call (.nm "bool") (.cons (.idx (.nm "sources") (.att .self "_id_")) .nil)))) (.cons .self .nil))))))) (.ifte (.att .self "_domain_") (.forIn (.nm "v1") (.att .self "_domain_") (.yld (.call (.nm "OperationResult") (.cons (.dict (.cons (.splat (.nm "sources")) (.cons (.kv (.att .self "_id_") (.call (.nm "HashedValue") (.cons (.nm "v1") .nil))) .nil))) (.cons (.cst "False") (.cons .self .nil)))))) (.ifte (.att .self "_should_be_instantiated_") (.yldFrom (.call (.att .self "_instantiate_using_child_vars_and_yield_results_") (.cons (.nm "sources") .nil))) (.raise (.nm "ValueError"))))))) }
+
+theorem find_mVar : irTable.find "Variable" "_evaluate__" = some mVar := by rfl
+
+theorem exec_yldFrom_eq (lower : CallH) (nd : Node) (w : World) (e : PE) (fr : Frame) :
+    exec lower nd w (.yldFrom e) fr = (do
+      let (v, s) ← evalE lower nd w e fr
+      let xs ← iterV v
+      pure { fr := { fr with isFalse := s }, ys := xs, ctl := .next }) := by
+  rfl
+
+theorem evalE_instantiate (lower : CallH) (nd : Node) (w : World) (b : IEnv) (L : List (String × V)) (s : Bool) :
+    evalE lower nd w (.call (.att .self "_instantiate_using_child_vars_and_yield_results_") (.cons (.nm "sources") .nil))
+        { locals := ("sources", .env b) :: L, isFalse := s }
+      = (nd.instantiate b.env >>= fun rs =>
+          pure (.list (rs.map fun r => V.res { b := { env := r.1, own := (.self, r.2.1) :: b.own }, isFalse := !r.2.2 }), s)) := by
+  rfl
+
+/-- the node `runIR` builds for the predicate `HasType(t, c)`: a `Variable` without a domain that is instantiated -/
+def ndHasType (inst : Env → R (List (Env × Val × Bool))) : Node :=
+  { cls := "Variable", domain := none, instantiable := true, instantiate := inst }
+
+theorem runNode_hasType (inst : Env → R (List (Env × Val × Bool))) (w : World) (env : Env) :
+    runNode irTable (ndHasType inst) w env = (inst env >>= fun rs => pure (rs.map fun a => (a.1, a.2.1, a.2.2))) := by
+  rw [runNode_eq, callTop, callWith_find _ _ _ _ _ _ _ mVar find_mVar]
+  simp only [mVar, bindParams]
+  rw [prologue]
+  have h : ∀ lower : CallH, exec lower (ndHasType inst) w
+        (.ifte (.bin "in" (.att .self "_id_") (.nm "sources")) (.seq (.ifte (.bin "or" (.call (.nm "isinstance") (.cons (.att .self "_parent_") (.cons (.nm "LogicalBinaryOperator") .nil))) (.bin "is" .self (.att .self "_conditions_root_"))) (.assign (.att .self "_is_false_") (.un "not" (.call (.nm "bool") (.cons (.idx (.nm "sources") (.att .self "_id_")) .nil)))) .pass) (.seq (.assign (.nm "v0") (.bin "or" (.call (.nm "isinstance") (.cons (.att .self "_parent_") (.cons (.nm "LogicalOperator") .nil))) (.bin "or" (.bin "is" .self (.att .self "_conditions_root_")) (.att .self "_is_condition_of_nested_query_")))) (.yld (.call (.nm "OperationResult") (.cons (.nm "sources") (.cons (.bin "and" (.nm "v0") (.un "not" (.call (.nm "bool") (.cons (.idx (.nm "sources") (.att .self "_id_")) .nil)))) (.cons .self .nil))))))) (.ifte (.att .self "_domain_") (.forIn (.nm "v1") (.att .self "_domain_") (.yld (.call (.nm "OperationResult") (.cons (.dict (.cons (.splat (.nm "sources")) (.cons (.kv (.att .self "_id_") (.call (.nm "HashedValue") (.cons (.nm "v1") .nil))) .nil))) (.cons (.cst "False") (.cons .self .nil)))))) (.ifte (.att .self "_should_be_instantiated_") (.yldFrom (.call (.att .self "_instantiate_using_child_vars_and_yield_results_") (.cons (.nm "sources") .nil))) (.raise (.nm "ValueError")))))
+        { locals := [("sources", .env { env := env }), ("parent", .none)], isFalse := false }
+      = (inst env >>= fun rs => iterV (.list (rs.map fun r => V.res { b := { env := r.1, own := [(.self, r.2.1)] }, isFalse := !r.2.2 })) >>= fun xs =>
+          pure { fr := { locals := [("sources", .env { env := env }), ("parent", .none)], isFalse := false }, ys := xs, ctl := .next }) := by
+    intro lower
+    show exec lower (ndHasType inst) w (.yldFrom (.call (.att .self "_instantiate_using_child_vars_and_yield_results_") (.cons (.nm "sources") .nil)))
+        { locals := [("sources", .env { env := env }), ("parent", .none)], isFalse := false } = _
+    rw [exec_yldFrom_eq, evalE_instantiate]
+    show ((inst env >>= fun rs => _) >>= _) = _
+    cases inst env <;> rfl
+  rw [h]
+  cases inst env with
+  | error e => rfl
+  | ok rs =>
+    show (rs.map fun r => V.res { b := { env := r.1, own := [(.self, r.2.1)] }, isFalse := !r.2.2 }).mapM (conv (ndHasType inst)) = _
+    induction rs with
+    | nil => rfl
+    | cons r rest ih =>
+      simp only [List.map_cons, List.mapM_cons, ih]
+      simp [conv, List.lookup]
+      rfl
+/-- the predicate `HasType(t, c)` (a `Variable` that is instantiated from its child variable), pointwise: agreement of
+`runIRTerm irTable` with `evalTerm` on the argument term gives agreement on the predicate -/
+theorem C01_runIR_eq_eval_hasType_partial (w : World) (t : Term) (c : Nat) (env : Env)
+    (ih : runIRTerm irTable w false t env = liftE (evalTerm w false t env)) :
+    runIR irTable w (.hasType t c) env = liftE (eval w (.hasType t c) env) := by
+  rw [runIR]
+  show (runNode irTable (ndHasType fun e => do
+          let rs ← runIRTerm irTable w false t e
+          pure (rs.map fun r => (r.1, Val.none, isInstance w r.2.1 c))) w env >>= fun rs => pure (dropVal rs)) = _
+  rw [runNode_hasType]
+  simp only [ih, eval]
+  cases evalTerm w false t env with
+  | error e => rfl
+  | ok rs =>
+    simp [liftE, dropVal, List.map_map, Function.comp_def]
+    rfl
+
+/-- a term used as a condition: `runIR` / `eval` only drop the value component -/
+theorem C01_runIR_eq_eval_truth_partial (w : World) (t : Term) (env : Env)
+    (ih : runIRTerm irTable w true t env = liftE (evalTerm w true t env)) :
+    runIR irTable w (.truth t) env = liftE (eval w (.truth t) env) := by
+  rw [runIR]
+  simp only [ih, eval]
+  cases evalTerm w true t env with
+  | error e => rfl
+  | ok rs => rfl
+
+example : runIRTerm irTable w0 false (.var 0) [] = liftE (evalTerm w0 false (.var 0) []) := by rfl
+example : runIR irTable w0 (.hasType (.var 0) 3) [] = liftE (eval w0 (.hasType (.var 0) 3) []) :=
+  C01_runIR_eq_eval_hasType_partial w0 _ _ _ (by rfl)
+example : runIR irTable w0 (.truth (.var 0)) [] = liftE (eval w0 (.truth (.var 0)) []) :=
+  C01_runIR_eq_eval_truth_partial w0 _ _ (by rfl)
+
+
 end KrroodVerif.Eql.IR
